@@ -66,15 +66,20 @@ static void all_del(struct node *n)
 	live--;
 }
 
+static unsigned long cmp_calls;
+
 static int cmp(const struct iv_avl_node *_a, const struct iv_avl_node *_b)
 {
 	const struct node *a = iv_container_of(_a, struct node, an);
 	const struct node *b = iv_container_of(_b, struct node, an);
 
+	/* only the SIGN of the result is specified (as for qsort / strcmp comparators): the magnitude varies from call
+	   to call, so that code which tests for exactly -1 / 1 is exposed */
+	cmp_calls++;
 	if (a->key < b->key)
-		return -1;
+		return -1 - (int)(cmp_calls % 3) * 1000;
 	if (a->key > b->key)
-		return 1;
+		return 1 + (int)((cmp_calls >> 1) % 3) * 7;
 	return 0;
 }
 
